@@ -34,6 +34,8 @@ THEOREMS = [
     "Qentem.Props.C12.merge_arrays",
     "Qentem.Props.C12.merge_into_undefined",
     "Qentem.Props.C12.merge_copy_eq_move_of_copy",
+    "Qentem.Props.C12.container_assign_from_own_member",
+    "Qentem.Value.WF_refUpd",
     "Qentem.Props.C12.merge_is_fold",
     "Qentem.Props.C12.merge_keeps_other",
     "Qentem.Props.C12.merge_takes_source",
@@ -229,12 +231,16 @@ def check_laws(ops, impl_line):
         t = op.split(" ")
         name = t[0]
         changed = set()
-        if name in ("set", "typ", "app", "ins", "rem", "rmi", "rst", "cmp", "ptr", "adp", "rsv", "clr"):
+        if name in ("set", "typ", "tyc", "app", "ins", "rem", "rmi", "rst", "cmp", "ptr", "adp", "rsv", "clr"):
             tr, tp = parse_loc(t[1])
             changed = {tr}
         elif name == "grp":
             tr, tp = int(t[1]), []
             changed = {tr}
+        elif name == "cop":
+            tr, tp = parse_loc(t[3])
+            sr, sp = parse_loc(t[4])
+            changed = {tr, sr}
         else:
             tr, tp = parse_loc(t[1])
             sr, sp = parse_loc(t[3] if name == "inm" else t[2])
@@ -277,7 +283,26 @@ def check_laws(ops, impl_line):
                         ok = ok and noptr_slot(a) == noptr_slot(b)
             if not ok:
                 out.append(("index-into-object", "'%s' on %r gave %r: slot %d is live, the object and its other members must stay" % (op, prev[tr], cur[tr], i0)))
-        if name == "typ":
+        # container-typed overloads have value semantics, also when the operand lives inside the destination's root:
+        # the destination becomes (a copy of) the container as it was when the call was made
+        if name == "cop" and t[1] in ("ac", "cc", "am", "cm"):
+            kindc = {"o": "o", "a": "a", "s": "s"}[t[2]]
+            pre_t = navigate(prev[tr], tp, True)
+            src_before = navigate(prev[sr], sp, False)
+            nested = tr == sr and (tp[:len(sp)] == sp or sp[:len(tp)] == tp)
+            if src_before is not None and src_before[0] == kindc and (tr != sr or pre_t is not None):
+                node = navigate(cur[tr], tp, True)
+                if t[1] in ("ac", "cc"):
+                    if node is None or V.abstract(noptr(node)) != V.abstract(noptr(src_before)):
+                        out.append(("container-copy", "after '%s' the destination is %r; the operand was %r" % (op, node, src_before)))
+                elif not nested:
+                    if node is None or nocap(noptr(node)) != nocap(noptr(src_before)):
+                        out.append(("container-move", "after '%s' the destination is %r; the operand was %r" % (op, node, src_before)))
+                    after = navigate(cur[sr], sp, True)
+                    empty = {"o": ("o", "", []), "a": ("a", []), "s": ("s", "-")}[kindc]
+                    if after is None or nocap(after) != empty:
+                        out.append(("container-move", "after '%s' the moved-from operand reads %r" % (op, after)))
+        if name in ("typ", "tyc"):
             empty = {0: ("U",), 2: ("o", "0", []), 3: ("a", []), 4: ("s", "-"), 5: ("n", 0), 6: ("i", 0),
                      7: ("r", "0000000000000000"), 8: ("T",), 9: ("F",), 10: ("N",)}.get(int(t[2]))
             node = navigate(cur[tr], tp, True)
@@ -373,6 +398,10 @@ def gen_lines(ctx):
     N = 40000 if ctx.thorough else 6000
     for _ in range(N):
         add(V.rand_sequence(rng, rng.choice([3, 5, 8, 8, 12, 12, 16])))
+    # container-typed overloads (ObjectT / ArrayT / StringT, const& and &&, =, += and construction) whose operand
+    # lives in the destination's own root: descendant, ancestor, sibling, the destination itself
+    for ops in V.alias_cases():
+        add(ops)
     return lines, opss, n_corpus, n_exh
 
 
